@@ -1,4 +1,4 @@
-(* C09 — proofs about the model of the REPAIRED tree (fx = fy = true): for every valid
+(* C09 — proofs about the model of the REPAIRED tree (fx = fy = fz = true): for every valid
    schema, every static setting and every event sequence the state invariant holds,
    and every clause of the specification holds on the trace the model produces. *)
 From KG Require Import Prelude C09_Model C09_Spec.
@@ -65,6 +65,8 @@ Proof.
   - inversion H. lia.
   - apply andb_true_iff in H. destruct H as [H1 H2]. f_equal; lia.
   - inversion H. subst. apply andb_true_iff. split; lia.
+  - apply andb_true_iff in H. destruct H as [H H3]. apply andb_true_iff in H. destruct H as [H1 H2]. f_equal; lia.
+  - inversion H. subst. rewrite !andb_true_iff. repeat split; lia.
 Qed.
 
 Lemma item_eqb_eq a b : item_eqb a b = true <-> a = b.
@@ -80,7 +82,7 @@ Proof. destruct l; simpl; try reflexivity; try apply andb_true_iff; try split; l
 
 (* ---------- the state invariant ---------- *)
 Definition lim_of (d : detail) : lim :=
-  match d with DMI m => LMI m | DTB q b => LTB q b | DNone => LInf end.
+  match d with DMI m => LMI m | DTB q b => LTB q b | _ => LInf end.
 
 (* an item as the repaired Sync keeps it: of the schema's type, within [0, global] of the CURRENT schema *)
 Definition item_ok (c : config) (it : item) : Prop :=
@@ -110,15 +112,15 @@ Definition wrap_ok (c : config) (maxrt : Z) (w : rwrap) : Prop :=
   | Some i => exists it, rcfg w = Some it /\ item_ok c it /\ inner_ok (ck c) maxrt i it
   end.
 
-Definition Inv (k : kind) (maxrt : Z) (s : state) : Prop :=
-  crashed s = false /\ valid_cfg (scfg s) /\ ck (scfg s) = k /\
+Definition Inv (maxrt : Z) (s : state) : Prop :=
+  crashed s = false /\ valid_cfg (scfg s) /\ (present s = false -> rem s = None) /\
   (enable_global (sstr s) = false -> rem s = None) /\
   match rem s with None => True | Some w => wrap_ok (scfg s) maxrt w end.
 
 (* the events of a history: schema updates carry valid limits (the API server validates them) *)
-Definition ev_ok (k : kind) (e : ev) : Prop :=
+Definition ev_ok (e : ev) : Prop :=
   match e with
-  | ESchema a b g h => valid_cfg {| ck := k; l1 := a; l2 := b; g1 := g; g2 := h |}
+  | ESchema k _ a b g h => valid_cfg {| ck := k; l1 := a; l2 := b; g1 := g; g2 := h |}
   | _ => True
   end.
 
@@ -135,7 +137,7 @@ Proof.
   destruct H as (it & H1 & H2 & H3). exists it. repeat split; auto. eapply inner_ok_mono; eauto.
 Qed.
 
-Lemma Inv_mono k m m' s : m <= m' -> Inv k m s -> Inv k m' s.
+Lemma Inv_mono m m' s : m <= m' -> Inv m s -> Inv m' s.
 Proof.
   unfold Inv. intros Hm (H1 & H2 & H3 & H4 & H5). repeat split; auto.
   destruct (rem s); auto. eapply wrap_ok_mono; eauto.
@@ -145,9 +147,8 @@ Lemma sanitize_ok c it0 it : valid_cfg c -> sanitize c it0 = Some it ->
   item_ok c it /\ istr it = istr it0 /\ granted c (idet it0) = Some (lim_of (idet it)).
 Proof.
   unfold valid_cfg, sanitize, item_ok, granted. intros V H.
-  destruct (ck c) eqn:K; destruct (idet it0) eqn:D; try discriminate; inversion H; subst; simpl.
-  - split; [|split; reflexivity]. apply clamp_range. lia.
-  - split; [|split; reflexivity]. split; apply clamp_range; lia.
+  destruct (ck c) eqn:K; destruct (idet it0) eqn:D; try discriminate; inversion H; subst; simpl;
+    (split; [|split; reflexivity]); try split; apply clamp_range; lia.
 Qed.
 
 Lemma sanitize_none c it0 : sanitize c it0 = None -> granted c (idet it0) = None.
@@ -194,7 +195,7 @@ Lemma inner_resize_ok c0 c maxrt i ito it : valid_cfg c -> ck c0 = ck c ->
   match idet it with
   | DMI m => inner_ok (ck c) maxrt (inner_resize true true i (wrapu32 m) 0) it
   | DTB q b => inner_ok (ck c) maxrt (inner_resize true true i (wrapu32 q) (wrapu32 b)) it
-  | DNone => True
+  | _ => True
   end.
 Proof.
   intros V K0 Ho Hi Hn Hs. unfold valid_cfg, item_ok, inner_ok, inner_resize in *. rewrite K0 in Ho.
@@ -329,65 +330,80 @@ Proof.
 Qed.
 
 (* ---------- the invariant is preserved by every event ---------- *)
-Lemma apply_sync_inv k maxrt s it : 0 <= maxrt ->
-  enable_global (sstr s) = true -> Inv k maxrt s -> Inv k maxrt (apply_sync true true (scfg s) s it).
+Lemma apply_sync_inv maxrt s it : 0 <= maxrt -> present s = true ->
+  enable_global (sstr s) = true -> Inv maxrt s -> Inv maxrt (apply_sync true true (scfg s) s it).
 Proof.
-  intros Hm G (I1 & V & K & I2 & I3). unfold apply_sync.
+  intros Hm P G (I1 & V & Ip & I2 & I3). unfold apply_sync.
   assert (Hw : wrap_ok (scfg s) maxrt (match rem s with Some w => w | None => empty_rw end)).
   { destruct (rem s); [assumption|]. unfold wrap_ok, empty_rw. reflexivity. }
   destruct (rw_sync_ok (scfg s) (scfg s) maxrt _ it V eq_refl Hm Hw) as (w' & E & X). rewrite E.
-  unfold Inv, set_rem. simpl. repeat split; auto; [intros Y; congruence|].
+  unfold Inv, set_rem. simpl. repeat split; auto; try (intros Y; congruence).
   destruct (sanitize (scfg s) it); [tauto|]. subst w'. exact Hw.
 Qed.
 
-Lemma config_eqb_eq c a b g h :
-  config_eqb {| ck := ck c; l1 := a; l2 := b; g1 := g; g2 := h |} c = true ->
-  {| ck := ck c; l1 := a; l2 := b; g1 := g; g2 := h |} = c.
+Lemma config_eqb_eq c c' : kind_eqb (ck c') (ck c) && config_eqb c' c = true -> c' = c.
 Proof.
-  unfold config_eqb. destruct c. simpl. intros H.
+  unfold config_eqb, kind_eqb. destruct c, c'. simpl. intros H.
+  apply andb_true_iff in H. destruct H as [Hk H].
   apply andb_true_iff in H. destruct H as [H H4]. apply andb_true_iff in H. destruct H as [H H3].
-  apply andb_true_iff in H. destruct H as [H1 H2]. f_equal; lia.
+  apply andb_true_iff in H. destruct H as [H1 H2].
+  destruct ck, ck0; try discriminate; f_equal; lia.
 Qed.
 
-Lemma step_inv st k maxrt s e : 0 <= maxrt -> ev_ok k e ->
-  Inv k maxrt s -> Inv k (next_rt maxrt e) (step true true st s e).
+Lemma kind_eqb_eq a b : kind_eqb a b = true -> a = b.
+Proof. destruct a, b; simpl; intros H; try discriminate; reflexivity. Qed.
+
+(* UpstreamLimiter.Sync with a valid schema: added again, unchanged, another type, another strategy, other limits *)
+Lemma sync_schema_inv maxrt s c' x : 0 <= maxrt -> valid_cfg c' -> Inv maxrt s ->
+  Inv maxrt (sync_schema true true true s c' x).
 Proof.
-  intros Hm Ev I. pose proof I as (I1 & V & K & I2 & I3).
+  intros Hm V' I. pose proof I as (I1 & V & Ip & I2 & I3). unfold sync_schema.
+  destruct (present s) eqn:P; simpl.
+  2:{ unfold Inv, set_cfg. simpl. repeat split; auto. }
+  destruct (kind_eqb (ck c') (ck (scfg s)) && config_eqb c' (scfg s) && strategy_eqb x (sstr s)); [assumption|].
+  destruct (kind_eqb (ck c') (ck (scfg s))) eqn:K; simpl.
+  2:{ unfold Inv, set_cfg. simpl. repeat split; auto. }
+  apply kind_eqb_eq in K.
+  destruct (enable_global x) eqn:G; simpl.
+  2:{ unfold Inv, set_cfg. simpl. repeat split; auto. }
+  destruct (rem s) as [w|] eqn:R.
+  - unfold wrap_ok in I3.
+    destruct (rin w) as [i|] eqn:Ri.
+    + destruct I3 as (it & Rc & Hit & Hi). rewrite Rc.
+      assert (Hw : wrap_ok (scfg s) maxrt w) by (unfold wrap_ok; rewrite Ri; exists it; auto).
+      destruct (rw_sync_ok (scfg s) c' maxrt w it V' (eq_sym K) Hm Hw) as (w' & E & X). rewrite E.
+      destruct (sanitize_same_kind (scfg s) c' it (eq_sym K) Hit) as (it' & Sa). rewrite Sa in X.
+      unfold Inv, set_cfg. simpl. repeat split; auto; try (intros Y; congruence). tauto.
+    + unfold Inv, set_cfg. simpl. repeat split; auto; try (intros Y; congruence).
+      unfold wrap_ok. rewrite Ri. exact I3.
+  - unfold Inv, set_cfg. simpl. repeat split; auto.
+Qed.
+
+Lemma step_inv st maxrt s e : 0 <= maxrt -> ev_ok e ->
+  Inv maxrt s -> Inv (next_rt maxrt e) (step true true true st s e).
+Proof.
+  intros Hm Ev I. pose proof I as (I1 & V & Ip & I2 & I3).
   unfold step. rewrite I1.
-  destruct e as [it| |r rt|ok|sec|x|a b g h|]; simpl next_rt; try assumption.
-  - destruct (enable_global (sstr s)) eqn:G; [|assumption]. apply apply_sync_inv; auto.
-  - destruct (strategy_eqb (sstr s) SCount) eqn:G; [|assumption].
+  destruct e as [it| |r rt|ok| |ms|x|k x a b g h| |]; simpl next_rt; try assumption.
+  - destruct (present s) eqn:P; [|assumption]. simpl.
+    destruct (enable_global (sstr s)) eqn:G; [|assumption]. apply apply_sync_inv; auto.
+  - destruct (present s) eqn:P; [|assumption]. simpl.
+    destruct (strategy_eqb (sstr s) SCount) eqn:G; [|assumption].
     apply strategy_eqb_eq in G. apply apply_sync_inv; auto. rewrite G. reflexivity.
   - pose proof (zmax_ge maxrt rt) as [Z1 Z2].
     destruct (rem s) as [w|] eqn:R; [|apply Inv_mono with (m := maxrt); assumption].
     destruct (rin w) as [i|] eqn:Ri; [|apply Inv_mono with (m := maxrt); assumption].
     unfold wrap_ok in I3. rewrite Ri in I3. destruct I3 as (it & Rc & Hit & Hi).
     destruct (set_limit_ok (scfg s) maxrt i it r rt V Hit Hi) as (i' & E & Hi'). rewrite E.
-    unfold Inv, set_rem. simpl. repeat split; auto; [intros X; specialize (I2 X); discriminate|].
+    unfold Inv, set_rem. simpl. repeat split; auto; try (intros X; specialize (I2 X); discriminate);
+      try (intros X; specialize (Ip X); discriminate).
     unfold wrap_ok. simpl. exists it. auto.
   - unfold Inv. simpl. auto.
-  - destruct (strategy_eqb x (sstr s)) eqn:E; [assumption|].
-    unfold Inv. simpl. repeat split; auto.
-    + intros G. rewrite G. reflexivity.
-    + destruct (enable_global x); auto.
-  - (* the limits of the schema change *)
-    simpl in Ev. rewrite <- K in Ev.
-    set (c' := {| ck := ck (scfg s); l1 := a; l2 := b; g1 := g; g2 := h |}) in *.
-    destruct (config_eqb c' (scfg s)); [assumption|].
-    destruct (enable_global (sstr s)) eqn:G; simpl.
-    + destruct (rem s) as [w|] eqn:R.
-      * unfold wrap_ok in I3.
-        destruct (rin w) as [i|] eqn:Ri.
-        -- destruct I3 as (it & Rc & Hit & Hi). rewrite Rc.
-           assert (Hw : wrap_ok (scfg s) maxrt w) by (unfold wrap_ok; rewrite Ri; exists it; auto).
-           destruct (rw_sync_ok (scfg s) c' maxrt w it Ev eq_refl Hm Hw) as (w' & E & X). rewrite E.
-           destruct (sanitize_same_kind (scfg s) c' it eq_refl Hit) as (it' & Sa). rewrite Sa in X.
-           unfold Inv, set_cfg. simpl. repeat split; auto; [intros Y; congruence|tauto].
-        -- unfold Inv, set_cfg. simpl. repeat split; auto; [intros Y; congruence|].
-           unfold wrap_ok. rewrite Ri. exact I3.
-      * unfold Inv, set_cfg. simpl. repeat split; auto.
-    + unfold Inv, set_cfg. simpl. repeat split; auto.
-  - destruct (enable_global (sstr s)) eqn:G; [|assumption].
+  - apply sync_schema_inv; auto.
+  - apply sync_schema_inv; auto.
+  - destruct (present s); [|assumption]. unfold Inv. simpl. auto.
+  - destruct (present s) eqn:P; [|assumption]. simpl.
+    destruct (enable_global (sstr s)) eqn:G; [|assumption].
     destruct (rem s) eqn:R; [assumption|].
     unfold Inv, set_rem. simpl. repeat split; auto; try congruence.
 Qed.
@@ -409,10 +425,10 @@ Definition remote_lim (s : state) : option lim :=
   | None => None
   end.
 
-Lemma select_elig st k maxrt s : Inv k maxrt s ->
+Lemma select_elig st maxrt s : Inv maxrt s -> present s = true ->
   select true st s = if elig st s then SelRemote else SelLocal.
 Proof.
-  intros (I1 & _ & _ & I2 & _). unfold select, elig, is_ready, has_inner.
+  intros (I1 & _ & _ & I2 & _) P. unfold select, elig, is_ready, has_inner. rewrite P. simpl.
   destruct (md st); try reflexivity.
   destruct (sstr s) eqn:S; simpl in *; destruct (cs st); simpl; try reflexivity;
     try (rewrite (I2 eq_refl); destruct (hready s); reflexivity);
@@ -420,21 +436,28 @@ Proof.
     destruct (rem s) as [w|]; try reflexivity; destruct (rin w); reflexivity.
 Qed.
 
-Lemma observe_shape st k maxrt s : Inv k maxrt s ->
+Lemma observe_shape st maxrt s : Inv maxrt s -> present s = true ->
   observe true st s =
   let l := if elig st s then remote_lim s else Some (local_lim (scfg s)) in
   {| o_evp := false; o_sel := if elig st s then SelRemote else SelLocal; o_lim := l;
      o_adm := admitted (scfg s) l; o_ready := is_ready st s; o_rem := observe_rem s |}.
 Proof.
-  intros I. pose proof I as (I1 & _). unfold observe. rewrite I1.
-  rewrite (select_elig st k maxrt s I). unfold remote_lim.
+  intros I P. pose proof I as (I1 & _). unfold observe. rewrite I1.
+  rewrite (select_elig st maxrt s I P). unfold remote_lim.
   destruct (elig st s); reflexivity.
 Qed.
 
-Lemma eligible_observe st k maxrt s : Inv k maxrt s ->
+Lemma observe_absent st maxrt s : Inv maxrt s -> present s = false ->
+  observe true st s =
+  {| o_evp := false; o_sel := SelDefault; o_lim := Some LInf; o_adm := -1; o_ready := is_ready st s; o_rem := None |}.
+Proof.
+  intros (I1 & _ & Ip & _) P. unfold observe, select, observe_rem. rewrite I1, P, (Ip P). reflexivity.
+Qed.
+
+Lemma eligible_observe st maxrt s : Inv maxrt s -> present s = true ->
   eligible st (sstr s) (observe true st s) = elig st s.
 Proof.
-  intros I. rewrite (observe_shape st k maxrt s I).
+  intros I P. rewrite (observe_shape st maxrt s I P).
   unfold eligible, elig, synced, has_inner, observe_rem, is_ready, global_strategy, enable_global. simpl.
   destruct (md st); try reflexivity. destruct (cs st); try reflexivity.
   destruct (rem s) as [w|]; [|reflexivity]. destruct (rin w); reflexivity.
@@ -447,7 +470,7 @@ Proof.
   - rewrite !wrapu32_id31 by lia. reflexivity.
 Qed.
 
-Lemma remote_bounded k maxrt s l : Inv k maxrt s -> remote_lim s = Some l ->
+Lemma remote_bounded maxrt s l : Inv maxrt s -> remote_lim s = Some l ->
   lim_bounded (scfg s) l = true.
 Proof.
   intros (_ & V & _ & _ & I3) R. unfold remote_lim in R.
@@ -466,14 +489,14 @@ Lemma admitted_le c n : admitted c (Some (LMI n)) <= n.
 Proof. unfold admitted. destruct (probe_cap c <? n) eqn:E; lia. Qed.
 
 (* ---------- the state clauses of the specification ---------- *)
-Lemma bound_holds st k maxrt s : Inv k maxrt s -> bound_ok (scfg s) (observe true st s) = true.
+Lemma bound_holds st maxrt s : Inv maxrt s -> present s = true -> bound_ok (scfg s) (observe true st s) = true.
 Proof.
-  intros I. pose proof I as (_ & V & _). rewrite (observe_shape st k maxrt s I). unfold bound_ok. simpl.
+  intros I P. pose proof I as (_ & V & _). rewrite (observe_shape st maxrt s I P). unfold bound_ok. simpl.
   destruct (elig st s) eqn:E.
   - unfold elig in E. destruct (md st); try discriminate. destruct (cs st); try discriminate.
     apply andb_true_iff in E. destruct E as [_ E]. unfold has_inner in E.
     destruct (remote_lim s) as [l|] eqn:R.
-    + pose proof (remote_bounded k maxrt s l I R) as B. rewrite B. simpl.
+    + pose proof (remote_bounded maxrt s l I R) as B. rewrite B. simpl.
       unfold lim_bounded, in_range in B. destruct (ck (scfg s)); [|reflexivity].
       destruct l; try discriminate. pose proof (admitted_le (scfg s) n) as A. unfold admitted in *. lia.
     + unfold remote_lim in R. destruct (rem s) as [w|]; [|discriminate]. destruct (rin w); discriminate.
@@ -483,19 +506,22 @@ Proof.
     + lia.
 Qed.
 
-Lemma fallback_holds st k maxrt s : Inv k maxrt s ->
+Lemma absent_holds st maxrt s : Inv maxrt s -> present s = false -> absent_ok (observe true st s) = true.
+Proof. intros I P. rewrite (observe_absent st maxrt s I P). reflexivity. Qed.
+
+Lemma fallback_holds st maxrt s : Inv maxrt s -> present s = true ->
   fallback_ok st (scfg s) (sstr s) (observe true st s) = true.
 Proof.
-  intros I. pose proof I as (_ & V & _). unfold fallback_ok. rewrite (eligible_observe st k maxrt s I).
-  rewrite (observe_shape st k maxrt s I). simpl.
+  intros I P. pose proof I as (_ & V & _). unfold fallback_ok. rewrite (eligible_observe st maxrt s I P).
+  rewrite (observe_shape st maxrt s I P). simpl.
   destruct (elig st s); [reflexivity|]. rewrite (local_lim_spec _ V). apply lim_eqb_refl.
 Qed.
 
-Lemma inforce_holds st k maxrt s : Inv k maxrt s ->
+Lemma inforce_holds st maxrt s : Inv maxrt s -> present s = true ->
   inforce_ok st (sstr s) (observe true st s) = true.
 Proof.
-  intros I. unfold inforce_ok. rewrite (eligible_observe st k maxrt s I).
-  rewrite (observe_shape st k maxrt s I). simpl.
+  intros I P. unfold inforce_ok. rewrite (eligible_observe st maxrt s I P).
+  rewrite (observe_shape st maxrt s I P). simpl.
   destruct (elig st s) eqn:E; [|reflexivity].
   unfold elig in E. destruct (md st); try discriminate. destruct (cs st); try discriminate.
   apply andb_true_iff in E. destruct E as [_ E]. unfold has_inner in E.
@@ -503,17 +529,21 @@ Proof.
   destruct (rin w); [|discriminate]. simpl. apply lim_eqb_refl.
 Qed.
 
-Lemma nopanic_holds st k maxrt s : Inv k maxrt s -> nopanic_ok (observe true st s) = true.
+Lemma observe_rem_eq st maxrt s : Inv maxrt s ->
+  o_rem (observe true st s) = observe_rem s /\ o_evp (observe true st s) = false.
 Proof.
-  intros I. rewrite (observe_shape st k maxrt s I). unfold nopanic_ok. simpl.
-  destruct (elig st s); reflexivity.
+  intros I. destruct (present s) eqn:P.
+  - rewrite (observe_shape st maxrt s I P). simpl. auto.
+  - rewrite (observe_absent st maxrt s I P). simpl. destruct I as (_ & _ & Ip & _).
+    unfold observe_rem. rewrite (Ip P). auto.
 Qed.
 
-(* ---------- the reaction clauses: failing / recovery ---------- *)
-Lemma observe_rem_eq st k maxrt s : Inv k maxrt s ->
-  o_rem (observe true st s) = observe_rem s /\ o_evp (observe true st s) = false.
-Proof. intros I. rewrite (observe_shape st k maxrt s I). simpl. auto. Qed.
-
+Lemma nopanic_holds st maxrt s : Inv maxrt s -> nopanic_ok (observe true st s) = true.
+Proof.
+  intros I. destruct (present s) eqn:P.
+  - rewrite (observe_shape st maxrt s I P). unfold nopanic_ok. simpl. destruct (elig st s); reflexivity.
+  - rewrite (observe_absent st maxrt s I P). reflexivity.
+Qed.
 Lemma not_stale maxrt rt last : fresh maxrt rt = true -> last <= maxrt ->
   (0 <? rt) && (rt <=? last) = false.
 Proof. unfold fresh. intros F L. destruct (0 <? rt) eqn:A; destruct (rt <=? last) eqn:B; simpl; try reflexivity. lia. Qed.
@@ -587,22 +617,22 @@ Qed.
 (* the remote part of the observation after a count reply *)
 Lemma count_step st s w i i' r rt : crashed s = false ->
   rem s = Some w -> rin w = Some i -> set_limit true (scfg s) i r rt = Some i' ->
-  observe_rem (step true true st s (ECount r rt)) =
+  observe_rem (step true true true st s (ECount r rt)) =
   Some {| r_inner := Some (iw i'); r_lim := Some (il i'); r_unavail := iun i'; r_over := iover i'; r_cfg := rcfg w |}.
 Proof.
   intros I1 R Ri E. unfold step. rewrite I1, R, Ri, E. unfold observe_rem, set_rem. simpl. reflexivity.
 Qed.
 
-Lemma failing_holds st k maxrt s e : 0 <= maxrt -> ev_ok k e -> Inv k maxrt s ->
-  failing_ok (scfg s) maxrt (observe true st s) e (observe true st (step true true st s e)) = true.
+Lemma failing_holds st maxrt s e : 0 <= maxrt -> ev_ok e -> Inv maxrt s ->
+  failing_ok (scfg s) maxrt (observe true st s) e (observe true st (step true true true st s e)) = true.
 Proof.
-  intros Hm Ev I. pose proof (step_inv st k maxrt s e Hm Ev I) as I'.
+  intros Hm Ev I. pose proof (step_inv st maxrt s e Hm Ev I) as I'.
   unfold failing_ok, rem_of, inner_is, rlim_is, rcfg_det, rem_of.
-  destruct (observe_rem_eq st k _ _ I') as [-> ->].
-  destruct (observe_rem_eq st k _ _ I) as [-> _].
-  destruct e as [| |[mx rate| |] rt| | | | |]; try reflexivity.
-  pose proof I as (I1 & V & K & I2 & I3).
-  set (Q := observe_rem (step true true st s (ECount (RErr mx rate) rt))).
+  destruct (observe_rem_eq st _ _ I') as [-> ->].
+  destruct (observe_rem_eq st _ _ I) as [-> _].
+  destruct e as [| |[mx rate| |] rt| | | | | | |]; try reflexivity.
+  pose proof I as (I1 & V & Ip & I2 & I3).
+  set (Q := observe_rem (step true true true st s (ECount (RErr mx rate) rt))).
   unfold observe_rem. destruct (rem s) as [w|] eqn:R; [|reflexivity].
   unfold wrap_ok in I3. destruct (rin w) as [i|] eqn:Ri; [|reflexivity]. simpl.
   destruct I3 as (it & Rc & Hit & Hi). rewrite Rc.
@@ -622,22 +652,23 @@ Proof.
     apply andb_true_iff. split; lia.
 Qed.
 
-Lemma recovery_holds st k maxrt s e : 0 <= maxrt -> ev_ok k e -> Inv k maxrt s ->
-  recovery_ok (scfg s) (sstr s) maxrt (observe true st s) e (observe true st (step true true st s e)) = true.
+Lemma recovery_holds st maxrt s e : 0 <= maxrt -> ev_ok e -> Inv maxrt s ->
+  recovery_ok (present s) (scfg s) (sstr s) maxrt (observe true st s) e (observe true st (step true true true st s e)) = true.
 Proof.
-  intros Hm Ev I. pose proof (step_inv st k maxrt s e Hm Ev I) as I'.
+  intros Hm Ev I. pose proof (step_inv st maxrt s e Hm Ev I) as I'.
   unfold recovery_ok, rem_of, inner_is, rlim_is, rcfg_det, rem_of.
-  destruct (observe_rem_eq st k _ _ I') as [-> ->].
-  destruct (observe_rem_eq st k _ _ I) as [-> _].
-  pose proof I as (I1 & V & K & I2 & I3).
-  destruct e as [it0| |[| |[|] limit] rt| | | | |]; try reflexivity.
+  destruct (observe_rem_eq st _ _ I') as [-> ->].
+  destruct (observe_rem_eq st _ _ I) as [-> _].
+  pose proof I as (I1 & V & Ip & I2 & I3).
+  destruct e as [it0| |[| |[|] limit] rt| | | | | | |]; try reflexivity.
   - (* a server quota *)
+    destruct (present s) eqn:P; [|reflexivity]. simpl.
     destruct (global_strategy (sstr s)) eqn:G; [|reflexivity].
     destruct (strategy_eqb (istr it0) SCount) eqn:S; [reflexivity|]. simpl.
     destruct (granted (scfg s) (idet it0)) as [l|] eqn:Gr; [|reflexivity].
-    unfold step. rewrite I1.
+    unfold step. rewrite I1, P.
     replace (enable_global (sstr s)) with true by (rewrite <- G; destruct (sstr s); reflexivity).
-    unfold apply_sync.
+    simpl. unfold apply_sync.
     assert (Hw : wrap_ok (scfg s) maxrt (match rem s with Some w => w | None => empty_rw end)).
     { destruct (rem s); [assumption|]. unfold wrap_ok, empty_rw. reflexivity. }
     destruct (rw_sync_ok (scfg s) (scfg s) maxrt _ it0 V eq_refl Hm Hw) as (w' & E & X). rewrite E.
@@ -652,7 +683,7 @@ Proof.
     + destruct Hi' as (X & _). rewrite X in S. discriminate.
     + destruct Hi' as (X & _). rewrite X in S. discriminate.
   - (* an accepted global-count reply *)
-    set (Q := observe_rem (step true true st s (ECount (ROk true limit) rt))).
+    set (Q := observe_rem (step true true true st s (ECount (ROk true limit) rt))).
     unfold observe_rem. destruct (rem s) as [w|] eqn:R; [|reflexivity].
     unfold wrap_ok in I3. destruct (rin w) as [i|] eqn:Ri; [|reflexivity]. simpl.
     destruct I3 as (it & Rc & Hit & Hi). rewrite Rc.
@@ -672,97 +703,103 @@ Proof.
 Qed.
 
 (* ---------- histories ---------- *)
-Lemma sstr_step st s e : sstr (step true true st s e) = if crashed s then sstr s else next_str (sstr s) e.
+Lemma sync_schema_fields s c' x :
+  let s' := sync_schema true true true s c' x in
+  present s' = true \/ (s' = s /\ present s = true /\ c' = scfg s /\ x = sstr s).
 Proof.
-  unfold step. destruct (crashed s) eqn:Cr; [reflexivity|].
-  destruct e as [it| |r rt|ok|sec|x|a b g h|]; simpl.
-  - destruct (enable_global (sstr s)); [|reflexivity]. unfold apply_sync. destruct (rw_sync _ _ _ _ _); reflexivity.
-  - destruct (strategy_eqb (sstr s) SCount); [|reflexivity]. unfold apply_sync. destruct (rw_sync _ _ _ _ _); reflexivity.
-  - destruct (rem s) as [w|]; [|reflexivity]. destruct (rin w); [|reflexivity]. destruct (set_limit _ _ _ _ _); reflexivity.
-  - reflexivity.
-  - reflexivity.
-  - destruct (strategy_eqb x (sstr s)) eqn:E; [|reflexivity]. apply strategy_eqb_eq in E. congruence.
-  - destruct (config_eqb _ _); [reflexivity|]. destruct (enable_global (sstr s)); simpl; [|reflexivity].
+  unfold sync_schema. destruct (present s) eqn:P; simpl; [|left; reflexivity].
+  destruct (kind_eqb (ck c') (ck (scfg s)) && config_eqb c' (scfg s) && strategy_eqb x (sstr s)) eqn:E.
+  - right. apply andb_true_iff in E. destruct E as [E1 E2]. apply config_eqb_eq in E1. apply strategy_eqb_eq in E2. auto.
+  - left. destruct (kind_eqb _ _); simpl; [|reflexivity]. destruct (enable_global x); simpl; [|reflexivity].
     destruct (rem s) as [w|]; [|reflexivity]. destruct (rin w); [|reflexivity]. destruct (rcfg w); [|reflexivity].
     destruct (rw_sync _ _ _ _ _); reflexivity.
-  - destruct (enable_global (sstr s)); [|reflexivity]. destruct (rem s); reflexivity.
 Qed.
 
-Lemma scfg_step st s e : crashed s = false -> scfg (step true true st s e) = next_cfg (scfg s) e.
+Lemma sync_schema_proj s c' x :
+  let s' := sync_schema true true true s c' x in
+  present s' = true /\ scfg s' = c' /\ sstr s' = x /\ hage s' = hage s.
+Proof.
+  unfold sync_schema. destruct (present s) eqn:P; simpl; [|auto].
+  destruct (kind_eqb (ck c') (ck (scfg s)) && config_eqb c' (scfg s) && strategy_eqb x (sstr s)) eqn:E.
+  - apply andb_true_iff in E. destruct E as [E1 E2]. apply config_eqb_eq in E1. apply strategy_eqb_eq in E2. subst. auto.
+  - destruct (kind_eqb _ _); simpl; [|auto]. destruct (enable_global x); simpl; [|auto].
+    destruct (rem s) as [w|]; [|auto]. destruct (rin w); [|auto]. destruct (rcfg w); [|auto].
+    destruct (rw_sync _ _ _ _ _); auto.
+Qed.
+
+Lemma step_proj st s e : crashed s = false ->
+  let s' := step true true true st s e in
+  present s' = next_present (present s) e /\ scfg s' = next_cfg (scfg s) e /\ sstr s' = next_str (sstr s) e.
 Proof.
   intros Cr. unfold step. rewrite Cr.
-  destruct e as [it| |r rt|ok|sec|x|a b g h|]; simpl.
-  - destruct (enable_global (sstr s)); [|reflexivity]. unfold apply_sync. destruct (rw_sync _ _ _ _ _); reflexivity.
-  - destruct (strategy_eqb (sstr s) SCount); [|reflexivity]. unfold apply_sync. destruct (rw_sync _ _ _ _ _); reflexivity.
-  - destruct (rem s) as [w|]; [|reflexivity]. destruct (rin w); [|reflexivity]. destruct (set_limit _ _ _ _ _); reflexivity.
-  - reflexivity.
-  - reflexivity.
-  - destruct (strategy_eqb x (sstr s)); reflexivity.
-  - destruct (config_eqb _ _) eqn:E; [symmetry; apply config_eqb_eq; exact E|].
-    destruct (enable_global (sstr s)); simpl; [|reflexivity].
-    destruct (rem s) as [w|]; [|reflexivity]. destruct (rin w); [|reflexivity]. destruct (rcfg w); [|reflexivity].
-    destruct (rw_sync _ _ _ _ _); reflexivity.
-  - destruct (enable_global (sstr s)); [|reflexivity]. destruct (rem s); reflexivity.
+  destruct e as [it| |r rt|ok| |ms|x|k x a b g h| |]; simpl.
+  - destruct (present s && enable_global (sstr s)); [|auto]. unfold apply_sync. destruct (rw_sync _ _ _ _ _); auto.
+  - destruct (present s && strategy_eqb (sstr s) SCount); [|auto]. unfold apply_sync. destruct (rw_sync _ _ _ _ _); auto.
+  - destruct (rem s) as [w|]; [|auto]. destruct (rin w); [|auto]. destruct (set_limit _ _ _ _ _); auto.
+  - auto.
+  - auto.
+  - auto.
+  - destruct (sync_schema_proj s (scfg s) x) as (A & B & C & _). auto.
+  - destruct (sync_schema_proj s {| ck := k; l1 := a; l2 := b; g1 := g; g2 := h |} x) as (A & B & C & _). auto.
+  - destruct (present s) eqn:P; simpl; auto.
+  - destruct (present s && enable_global (sstr s)); [|auto]. destruct (rem s); auto.
 Qed.
 
 Lemma next_rt_ge maxrt e : maxrt <= next_rt maxrt e.
 Proof. destruct e; simpl; try lia. apply zmax_ge. Qed.
 
-Lemma hist_holds st k :
-  forall ops s maxrt, Forall (ev_ok k) ops -> 0 <= maxrt -> Inv k maxrt s ->
-  hist_ok st (scfg s) (sstr s) maxrt (observe true st s) (trace true true st s ops) = all_true.
+Lemma hist_holds st :
+  forall ops s maxrt, Forall ev_ok ops -> 0 <= maxrt -> Inv maxrt s ->
+  hist_ok st (present s) (scfg s) (sstr s) maxrt (observe true st s) (trace true true true st s ops) = all_true.
 Proof.
   induction ops as [|e r IH]; intros s maxrt Ev Hm I; [reflexivity|].
   inversion Ev as [|? ? Ee Er]; subst.
-  simpl. pose proof (step_inv st k maxrt s e Hm Ee I) as I'.
+  simpl. pose proof (step_inv st maxrt s e Hm Ee I) as I'.
   pose proof (next_rt_ge maxrt e) as Hge.
-  assert (S' : sstr (step true true st s e) = next_str (sstr s) e).
-  { rewrite sstr_step. destruct I as (I1 & _). rewrite I1. reflexivity. }
-  assert (C' : scfg (step true true st s e) = next_cfg (scfg s) e).
-  { apply scfg_step. destruct I as (I1 & _). exact I1. }
-  rewrite <- S', <- C'. rewrite (IH _ (next_rt maxrt e) Er ltac:(lia) I').
+  destruct (step_proj st s e ltac:(destruct I as (I1 & _); exact I1)) as (P' & C' & S').
+  rewrite <- P', <- C', <- S'. rewrite (IH _ (next_rt maxrt e) Er ltac:(lia) I').
   unfold step_ok.
-  rewrite (bound_holds st k _ _ I'), (fallback_holds st k _ _ I'), (inforce_holds st k _ _ I'),
-          (failing_holds st k maxrt s e Hm Ee I), (recovery_holds st k maxrt s e Hm Ee I),
-          (nopanic_holds st k _ _ I').
-  reflexivity.
+  rewrite (failing_holds st maxrt s e Hm Ee I), (recovery_holds st maxrt s e Hm Ee I), (nopanic_holds st _ _ I').
+  destruct (present (step true true true st s e)) eqn:P.
+  - rewrite (bound_holds st _ _ I' P), (fallback_holds st _ _ I' P), (inforce_holds st _ _ I' P). reflexivity.
+  - rewrite (absent_holds st _ _ I' P). reflexivity.
 Qed.
 
-Lemma init_inv c str0 : valid_cfg c -> Inv (ck c) 0 (init c str0).
+Lemma init_inv c str0 : valid_cfg c -> Inv 0 (init c str0).
 Proof. intros V. unfold Inv, init. simpl. auto. Qed.
 
-Lemma case_holds st str0 ops : valid_cfg (cfg st) -> Forall (ev_ok (ck (cfg st))) ops ->
-  case_ok st str0 (observe true st (init (cfg st) str0)) (trace true true st (init (cfg st) str0) ops) = all_true.
+Lemma case_holds st str0 ops : valid_cfg (cfg st) -> Forall ev_ok ops ->
+  case_ok st str0 (observe true st (init (cfg st) str0)) (trace true true true st (init (cfg st) str0) ops) = all_true.
 Proof.
   intros V Ev. unfold case_ok. pose proof (init_inv (cfg st) str0 V) as I.
-  pose proof (hist_holds st _ ops _ 0 Ev ltac:(lia) I) as H. simpl sstr in H. simpl scfg in H. rewrite H.
+  pose proof (hist_holds st ops _ 0 Ev ltac:(lia) I) as H. simpl sstr in H. simpl scfg in H. simpl present in H. rewrite H.
   unfold obs_ok.
-  pose proof (bound_holds st _ 0 _ I) as B. simpl scfg in B. rewrite B.
-  rewrite (nopanic_holds st _ 0 _ I).
-  pose proof (fallback_holds st _ 0 _ I) as F. simpl sstr in F. simpl scfg in F. rewrite F.
-  pose proof (inforce_holds st _ 0 _ I) as G. simpl sstr in G. rewrite G.
+  pose proof (bound_holds st 0 _ I eq_refl) as B. simpl scfg in B. rewrite B.
+  rewrite (nopanic_holds st 0 _ I).
+  pose proof (fallback_holds st 0 _ I eq_refl) as F. simpl sstr in F. simpl scfg in F. rewrite F.
+  pose proof (inforce_holds st 0 _ I eq_refl) as G. simpl sstr in G. rewrite G.
   reflexivity.
 Qed.
 
-Lemma run_inv st k :
-  forall ops s maxrt, Forall (ev_ok k) ops -> 0 <= maxrt -> Inv k maxrt s ->
-  exists m, 0 <= m /\ Inv k m (run true true st s ops).
+Lemma run_inv st :
+  forall ops s maxrt, Forall ev_ok ops -> 0 <= maxrt -> Inv maxrt s ->
+  exists m, 0 <= m /\ Inv m (run true true true st s ops).
 Proof.
   induction ops as [|e r IH]; intros s maxrt Ev Hm I; [exists maxrt; auto|].
   inversion Ev as [|? ? Ee Er]; subst.
   simpl. pose proof (next_rt_ge maxrt e). apply (IH _ (next_rt maxrt e)); [assumption|lia|]. apply step_inv; auto.
 Qed.
 
-Lemma reach_inv st str0 ops : valid_cfg (cfg st) -> Forall (ev_ok (ck (cfg st))) ops ->
-  exists m, 0 <= m /\ Inv (ck (cfg st)) m (run true true st (init (cfg st) str0) ops).
-Proof. intros V Ev. apply (run_inv st _ ops _ 0 Ev); [lia|apply init_inv; assumption]. Qed.
+Lemma reach_inv st str0 ops : valid_cfg (cfg st) -> Forall ev_ok ops ->
+  exists m, 0 <= m /\ Inv m (run true true true st (init (cfg st) str0) ops).
+Proof. intros V Ev. apply (run_inv st ops _ 0 Ev); [lia|apply init_inv; assumption]. Qed.
 
-(* the limiter a request meets is bounded by the limits currently configured, for every reachable state *)
-Lemma enforced_bounded st k maxrt s : Inv k maxrt s ->
+(* the limiter a request meets is bounded by the schema currently configured, for every reachable state *)
+Lemma enforced_bounded st maxrt s : Inv maxrt s -> present s = true ->
   exists l, o_lim (observe true st s) = Some l /\ lim_bounded (scfg s) l = true /\
             (forall n, l = LMI n -> o_adm (observe true st s) <= n).
 Proof.
-  intros I. pose proof I as (_ & V & _). rewrite (observe_shape st k maxrt s I). simpl.
+  intros I P. pose proof I as (_ & V & _). rewrite (observe_shape st maxrt s I P). simpl.
   destruct (elig st s) eqn:E.
   - unfold elig in E. destruct (md st); try discriminate. destruct (cs st); try discriminate.
     apply andb_true_iff in E. destruct E as [_ E]. unfold has_inner in E.
@@ -775,43 +812,44 @@ Proof.
     + intros n ->. apply admitted_le.
 Qed.
 
-Lemma size_le_global st str0 ops : valid_cfg (cfg st) -> Forall (ev_ok (ck (cfg st))) ops -> ck (cfg st) = KMI ->
-  let s := run true true st (init (cfg st) str0) ops in
+Lemma size_le_global st str0 ops : valid_cfg (cfg st) -> Forall ev_ok ops ->
+  let s := run true true true st (init (cfg st) str0) ops in
+  present s = true -> ck (scfg s) = KMI ->
   (exists n, o_lim (observe true st s) = Some (LMI n) /\ 0 <= n <= g1 (scfg s) /\ o_adm (observe true st s) <= g1 (scfg s))
   /\ (forall l, remote_lim s = Some l -> exists n, l = LMI n /\ 0 <= n <= g1 (scfg s)).
 Proof.
-  intros V Ev K s. destruct (reach_inv st str0 ops V Ev) as (m & _ & I). fold s in I.
-  pose proof I as (_ & _ & Ks & _). rewrite K in Ks. split.
-  - destruct (enforced_bounded st _ m s I) as (l & L & B & A).
+  intros V Ev s P Ks. destruct (reach_inv st str0 ops V Ev) as (m & _ & I). fold s in I. split.
+  - destruct (enforced_bounded st m s I P) as (l & L & B & A).
     unfold lim_bounded, in_range in B. rewrite Ks in B. destruct l; try discriminate.
     exists n. split; [assumption|]. specialize (A n eq_refl). lia.
-  - intros l R. pose proof (remote_bounded _ m s l I R) as B.
+  - intros l R. pose proof (remote_bounded m s l I R) as B.
     unfold lim_bounded, in_range in B. rewrite Ks in B. destruct l; try discriminate. exists n. split; [reflexivity|lia].
 Qed.
 
-Lemma tb_le_global st str0 ops : valid_cfg (cfg st) -> Forall (ev_ok (ck (cfg st))) ops -> ck (cfg st) = KTB ->
-  let s := run true true st (init (cfg st) str0) ops in
+Lemma tb_le_global st str0 ops : valid_cfg (cfg st) -> Forall ev_ok ops ->
+  let s := run true true true st (init (cfg st) str0) ops in
+  present s = true -> ck (scfg s) = KTB ->
   (exists q b, o_lim (observe true st s) = Some (LTB q b) /\ 0 <= q <= g1 (scfg s) /\ 0 <= b <= g2 (scfg s))
   /\ (forall l, remote_lim s = Some l -> exists q b, l = LTB q b /\ 0 <= q <= g1 (scfg s) /\ 0 <= b <= g2 (scfg s)).
 Proof.
-  intros V Ev K s. destruct (reach_inv st str0 ops V Ev) as (m & _ & I). fold s in I.
-  pose proof I as (_ & _ & Ks & _). rewrite K in Ks. split.
-  - destruct (enforced_bounded st _ m s I) as (l & L & B & A).
+  intros V Ev s P Ks. destruct (reach_inv st str0 ops V Ev) as (m & _ & I). fold s in I. split.
+  - destruct (enforced_bounded st m s I P) as (l & L & B & A).
     unfold lim_bounded, in_range in B. rewrite Ks in B. destruct l; try discriminate.
     exists q, b. split; [assumption|]. lia.
-  - intros l R. pose proof (remote_bounded _ m s l I R) as B.
+  - intros l R. pose proof (remote_bounded m s l I R) as B.
     unfold lim_bounded, in_range in B. rewrite Ks in B. destruct l; try discriminate. exists q, b. split; [reflexivity|lia].
 Qed.
 
 (* fallback: any missing condition selects the local limiter with the local limit *)
-Lemma fallback st str0 ops : valid_cfg (cfg st) -> Forall (ev_ok (ck (cfg st))) ops ->
-  let s := run true true st (init (cfg st) str0) ops in
+Lemma fallback st str0 ops : valid_cfg (cfg st) -> Forall ev_ok ops ->
+  let s := run true true true st (init (cfg st) str0) ops in
+  present s = true ->
   (md st <> MRemote \/ enable_global (sstr s) = false \/ cs st <> CSOk \/ hready s = false \/ has_inner s = false) ->
   o_sel (observe true st s) = SelLocal /\ o_lim (observe true st s) = Some (local_spec (scfg s)).
 Proof.
-  intros V Ev s H. destruct (reach_inv st str0 ops V Ev) as (m & _ & I). fold s in I.
+  intros V Ev s P H. destruct (reach_inv st str0 ops V Ev) as (m & _ & I). fold s in I.
   pose proof I as (_ & Vs & _).
-  rewrite (observe_shape st _ m s I). simpl.
+  rewrite (observe_shape st m s I P). simpl.
   assert (E : elig st s = false).
   { unfold elig. destruct (md st) eqn:M; try reflexivity. destruct (cs st) eqn:Cs; try reflexivity.
     destruct H as [H|[H|[H|[H|H]]]]; try congruence; rewrite H; simpl; try reflexivity.
@@ -820,62 +858,97 @@ Proof.
   rewrite E, (local_lim_spec _ Vs). auto.
 Qed.
 
-(* readiness hysteresis: failing heartbeats for at least 5 s make the server not ready, one good heartbeat makes it ready *)
-Lemma hage_step st s e : 0 <= hage s -> 0 <= hage (step true true st s e).
+(* a deleted schema name gets the default flow control, a known one never *)
+Lemma default_iff_absent st str0 ops : valid_cfg (cfg st) -> Forall ev_ok ops ->
+  let s := run true true true st (init (cfg st) str0) ops in
+  (o_sel (observe true st s) = SelDefault <-> present s = false).
+Proof.
+  intros V Ev s. destruct (reach_inv st str0 ops V Ev) as (m & _ & I). fold s in I.
+  destruct (present s) eqn:P.
+  - rewrite (observe_shape st m s I P). simpl. destruct (elig st s); split; discriminate.
+  - rewrite (observe_absent st m s I P). simpl. split; reflexivity.
+Qed.
+
+(* readiness hysteresis: failing heartbeats for at least 5 s make the server not ready, for less than 5 s
+   they do not; one good heartbeat or a leader change makes it ready *)
+Lemma hage_step st s e : 0 <= hage s -> 0 <= hage (step true true true st s e).
 Proof.
   intros H. unfold step. destruct (crashed s); [assumption|].
-  destruct e as [it| |r rt|ok|sec|x|a b g h|]; simpl.
-  - destruct (enable_global (sstr s)); [|assumption]. unfold apply_sync. destruct (rw_sync _ _ _ _ _); assumption.
-  - destruct (strategy_eqb (sstr s) SCount); [|assumption]. unfold apply_sync. destruct (rw_sync _ _ _ _ _); assumption.
+  destruct e as [it| |r rt|ok| |ms|x|k x a b g h| |]; simpl.
+  - destruct (present s && enable_global (sstr s)); [|assumption]. unfold apply_sync. destruct (rw_sync _ _ _ _ _); assumption.
+  - destruct (present s && strategy_eqb (sstr s) SCount); [|assumption]. unfold apply_sync. destruct (rw_sync _ _ _ _ _); assumption.
   - destruct (rem s) as [w|]; [|assumption]. destruct (rin w); [|assumption]. destruct (set_limit _ _ _ _ _); assumption.
   - unfold heartbeat. simpl. destruct (negb _); lia.
-  - destruct (sec <? 0) eqn:E; lia.
-  - destruct (strategy_eqb x (sstr s)); assumption.
-  - destruct (config_eqb _ _); [assumption|]. destruct (enable_global (sstr s)); simpl; [|assumption].
-    destruct (rem s) as [w|]; [|assumption]. destruct (rin w); [|assumption]. destruct (rcfg w); [|assumption].
-    destruct (rw_sync _ _ _ _ _); assumption.
-  - destruct (enable_global (sstr s)); [|assumption]. destruct (rem s); assumption.
+  - unfold heartbeat. simpl. destruct (negb _); lia.
+  - destruct (ms <? 0) eqn:E; lia.
+  - destruct (sync_schema_proj s (scfg s) x) as (_ & _ & _ & A). rewrite A. assumption.
+  - destruct (sync_schema_proj s {| ck := k; l1 := a; l2 := b; g1 := g; g2 := h |} x) as (_ & _ & _ & A). rewrite A. assumption.
+  - destruct (present s); assumption.
+  - destruct (present s && enable_global (sstr s)); [|assumption]. destruct (rem s); assumption.
 Qed.
 
-Lemma hage_run st ops : forall s, 0 <= hage s -> 0 <= hage (run true true st s ops).
+Lemma hage_run st ops : forall s, 0 <= hage s -> 0 <= hage (run true true true st s ops).
 Proof. induction ops as [|e r IH]; intros s H; [assumption|]. simpl. apply IH. apply hage_step. assumption. Qed.
 
-Lemma hb_sequence st s sec : crashed s = false -> 0 <= hage s -> 5 <= sec ->
-  hready (step true true st (step true true st (step true true st s (EHb false)) (EElapse sec)) (EHb false)) = false.
+Lemma hb_sequence st s ms : crashed s = false -> 0 <= hage s -> 0 <= ms ->
+  let s' := step true true true st (step true true true st (step true true true st s (EHb false)) (EElapse ms)) (EHb false) in
+  (5000 <= ms -> hready s' = false) /\
+  (ms < 5000 -> hlast s = true -> hready s = true -> hready s' = true).
 Proof.
   intros Cr H Hs.
-  assert (C1 : crashed (step true true st s (EHb false)) = false) by (unfold step; rewrite Cr; exact Cr).
-  set (s1 := step true true st s (EHb false)) in *.
-  assert (L1 : hlast s1 = false) by (subst s1; unfold step; rewrite Cr; reflexivity).
-  assert (A1 : 0 <= hage s1) by (subst s1; apply hage_step; assumption).
-  unfold step at 2. rewrite C1.
+  assert (C1 : crashed (step true true true st s (EHb false)) = false) by (unfold step; rewrite Cr; exact Cr).
+  assert (L1 : hlast (step true true true st s (EHb false)) = false) by (unfold step; rewrite Cr; reflexivity).
+  assert (A1 : 0 <= hage (step true true true st s (EHb false))) by (apply hage_step; assumption).
+  assert (R1 : hlast s = true -> hready s = true ->
+               hready (step true true true st s (EHb false)) = true /\ hage (step true true true st s (EHb false)) = 0).
+  { intros L R. unfold step. rewrite Cr. unfold heartbeat. simpl. rewrite L, R. simpl. auto. }
+  set (s1 := step true true true st s (EHb false)) in *.
+  simpl. unfold step at 2. rewrite C1.
   unfold step. simpl. unfold heartbeat. simpl. rewrite L1. simpl.
-  destruct (hready s1); simpl; [|reflexivity].
-  destruct (sec <? 0) eqn:E; [lia|]. destruct (5 <=? hage s1 + sec) eqn:E2; [reflexivity|lia].
+  destruct (ms <? 0) eqn:E; [lia|]. split.
+  - intros Hm. destruct (hready s1); simpl; [|reflexivity].
+    destruct (5000 <=? hage s1 + ms) eqn:E2; [reflexivity|lia].
+  - intros Hm L R. destruct (R1 L R) as [R' A']. rewrite R', A'. simpl.
+    destruct (5000 <=? 0 + ms) eqn:E2; [lia|reflexivity].
 Qed.
 
-Lemma Forall_app_ok k ops ops' : Forall (ev_ok k) ops -> Forall (ev_ok k) ops' -> Forall (ev_ok k) (ops ++ ops').
+Lemma Forall_app_ok ops ops' : Forall ev_ok ops -> Forall ev_ok ops' -> Forall ev_ok (ops ++ ops').
 Proof. intros A B. apply Forall_app. split; assumption. Qed.
 
-Lemma heartbeat_fallback st str0 ops sec : valid_cfg (cfg st) -> Forall (ev_ok (ck (cfg st))) ops -> 5 <= sec ->
-  let s := run true true st (init (cfg st) str0) (ops ++ [EHb false; EElapse sec; EHb false]) in
-  is_ready st s = false /\ o_sel (observe true st s) = SelLocal /\ o_lim (observe true st s) = Some (local_spec (scfg s)).
+Lemma run_app st s ops ops' : run true true true st s (ops ++ ops') = run true true true st (run true true true st s ops) ops'.
+Proof. unfold run. apply fold_left_app. Qed.
+
+Lemma heartbeat_fallback st str0 ops ms : valid_cfg (cfg st) -> Forall ev_ok ops -> 5000 <= ms ->
+  let s := run true true true st (init (cfg st) str0) (ops ++ [EHb false; EElapse ms; EHb false]) in
+  is_ready st s = false /\
+  (present s = true -> o_sel (observe true st s) = SelLocal /\ o_lim (observe true st s) = Some (local_spec (scfg s))).
 Proof.
   intros V Ev Hs s.
   assert (R : hready s = false).
-  { subst s. unfold run. rewrite fold_left_app. fold (run true true st (init (cfg st) str0) ops).
+  { subst s. rewrite run_app.
     destruct (reach_inv st str0 ops V Ev) as (m & _ & (I1 & _)).
-    simpl. apply hb_sequence; auto. apply hage_run. simpl. lia. }
+    simpl. apply hb_sequence; auto; [|lia]. apply hage_run. simpl. lia. }
   split; [unfold is_ready; destruct (cs st); auto|].
-  apply fallback; auto. apply Forall_app_ok; [assumption|]. repeat constructor.
+  intros P. apply fallback; auto. apply Forall_app_ok; [assumption|]. repeat constructor.
 Qed.
 
-Lemma heartbeat_ready st str0 ops : valid_cfg (cfg st) -> Forall (ev_ok (ck (cfg st))) ops ->
-  hready (run true true st (init (cfg st) str0) (ops ++ [EHb true])) = true.
+(* below 5 s of failing heartbeats a ready server stays ready (the hysteresis of setLeaderStatus) *)
+Lemma heartbeat_hysteresis st str0 ops ms : valid_cfg (cfg st) -> Forall ev_ok ops -> 0 <= ms < 5000 ->
+  let s0 := run true true true st (init (cfg st) str0) ops in
+  hlast s0 = true -> hready s0 = true ->
+  hready (run true true true st (init (cfg st) str0) (ops ++ [EHb false; EElapse ms; EHb false])) = true.
 Proof.
-  intros V Ev. unfold run. rewrite fold_left_app. fold (run true true st (init (cfg st) str0) ops).
-  destruct (reach_inv st str0 ops V Ev) as (m & _ & (I1 & _)). simpl. unfold step. rewrite I1.
-  unfold heartbeat. simpl. destruct (hready _); reflexivity.
+  intros V Ev Hs s0 L R. rewrite run_app. fold s0.
+  destruct (reach_inv st str0 ops V Ev) as (m & _ & (I1 & _)). fold s0 in I1.
+  simpl. apply hb_sequence; auto; try lia. apply hage_run. simpl. lia.
+Qed.
+
+Lemma heartbeat_ready st str0 ops e : valid_cfg (cfg st) -> Forall ev_ok ops -> e = EHb true \/ e = ELeader ->
+  hready (run true true true st (init (cfg st) str0) (ops ++ [e])) = true.
+Proof.
+  intros V Ev He. rewrite run_app.
+  destruct (reach_inv st str0 ops V Ev) as (m & _ & (I1 & _)). simpl.
+  destruct He as [-> | ->]; unfold step; rewrite I1; unfold heartbeat; simpl; destruct (hready _); reflexivity.
 Qed.
 
 (* ---------- reactions, stated on reachable states ---------- *)
@@ -886,141 +959,20 @@ Proof.
   - apply andb_true_iff in H. destruct H. f_equal; lia.
 Qed.
 
-Lemma observe_selected st k maxrt s w i : Inv k maxrt s ->
+Lemma observe_selected st maxrt s w i : Inv maxrt s -> present s = true ->
   md st = MRemote -> cs st = CSOk -> hready s = true -> enable_global (sstr s) = true ->
   rem s = Some w -> rin w = Some i ->
   o_sel (observe true st s) = SelRemote /\ o_lim (observe true st s) = Some (il i).
 Proof.
-  intros I M Cs R G Rm Ri. rewrite (observe_shape st k maxrt s I). simpl.
+  intros I P M Cs R G Rm Ri. rewrite (observe_shape st maxrt s I P). simpl.
   assert (E : elig st s = true) by (unfold elig, has_inner; rewrite M, Cs, R, G, Rm, Ri; reflexivity).
   rewrite E. unfold remote_lim. rewrite Rm, Ri. auto.
 Qed.
 
 Lemma count_state st s w i i' r rt : crashed s = false ->
   rem s = Some w -> rin w = Some i -> set_limit true (scfg s) i r rt = Some i' ->
-  step true true st s (ECount r rt) = set_rem s (Some {| rin := Some i'; rcfg := rcfg w |}).
+  step true true true st s (ECount r rt) = set_rem s (Some {| rin := Some i'; rcfg := rcfg w |}).
 Proof. intros I1 R Ri E. unfold step. rewrite I1, R, Ri, E. reflexivity. Qed.
 
-(* a global-count error reply on an available wrapper synced from the schema's own global section:
-   the limiter falls back to max(observed, local) within the global limit — never below the local limit *)
-Lemma failing_bounds st str0 ops mx rate rt w i : valid_cfg (cfg st) -> Forall (ev_ok (ck (cfg st))) ops ->
-  let s := run true true st (init (cfg st) str0) ops in let c := scfg s in
-  rem s = Some w -> rin w = Some i -> iw i <> WEmpty -> iun i = false ->
-  (0 <? rt) && (rt <=? ilast i) = false ->
-  rcfg w = Some {| idet := global_detail c; istr := SCount |} ->
-  exists i', rem (step true true st s (ECount (RErr mx rate) rt)) = Some {| rin := Some i'; rcfg := rcfg w |} /\
-             iun i' = true /\
-             match ck c with
-             | KMI => exists n, il i' = LMI n /\ l1 c <= n <= g1 c
-             | KTB => exists q b, il i' = LTB q b /\ l1 c <= q <= g1 c /\ 0 <= b <= g2 c
-             end.
-Proof.
-  intros V Ev s c Rm Ri W U F Rc. destruct (reach_inv st str0 ops V Ev) as (m & _ & I). fold s in I.
-  pose proof I as (I1 & Vs & _ & _ & I3). fold c in Vs. rewrite Rm in I3. unfold wrap_ok in I3. rewrite Ri in I3. fold c in I3.
-  destruct I3 as (it & Rc' & Hit & Hi). rewrite Rc in Rc'. inversion Rc'; subst it; clear Rc'.
-  pose proof Hi as Hi0. unfold inner_ok in Hi0. unfold global_detail in *.
-  destruct (iw i) eqn:Wi; [congruence| |].
-  - destruct Hi0 as (_ & K & _). rewrite K in *.
-    destruct (set_limit_mi_err c m i _ (g1 c) mx rate rt Vs Hit ltac:(rewrite K; exact Hi) Wi U F eq_refl) as (i' & E & _ & U' & L').
-    exists i'. rewrite (count_state st s w i i' _ rt I1 Rm Ri E). simpl.
-    split; [reflexivity|]. split; [assumption|]. eexists. split; [exact L'|].
-    unfold valid_cfg in Vs. rewrite K in Vs. unfold zmin, zmax. zcases; lia.
-  - destruct Hi0 as (_ & K & _). rewrite K in *.
-    destruct (set_limit_tb_err c m i _ (g1 c) (g2 c) mx rate rt Vs Hit ltac:(rewrite K; exact Hi) Wi U eq_refl) as (i' & E & _ & U' & L').
-    exists i'. rewrite (count_state st s w i i' _ rt I1 Rm Ri E). simpl.
-    split; [reflexivity|]. split; [assumption|]. eexists. eexists. split; [exact L'|].
-    unfold valid_cfg in Vs. rewrite K in Vs. unfold zmin, zmax. zcases; lia.
-Qed.
-
-(* a server quota of the schema's type becomes the limiter's size, bounded by the global limit,
-   and is what a request meets as soon as the server is ready *)
-Lemma recovery_allocate st str0 ops it l : valid_cfg (cfg st) -> Forall (ev_ok (ck (cfg st))) ops ->
-  let s := run true true st (init (cfg st) str0) ops in let c := scfg s in
-  md st = MRemote -> cs st = CSOk -> hready s = true -> enable_global (sstr s) = true ->
-  istr it <> SCount -> granted c (idet it) = Some l ->
-  let s' := step true true st s (EQuota it) in
-  o_sel (observe true st s') = SelRemote /\ o_lim (observe true st s') = Some l /\ remote_lim s' = Some l.
-Proof.
-  intros V Ev s c M Cs R G S Gr s'. destruct (reach_inv st str0 ops V Ev) as (m & Hm & I). fold s in I.
-  pose proof (step_inv st _ m s (EQuota it) Hm Logic.I I) as I'. fold s' in I'. simpl in I'.
-  pose proof (recovery_holds st _ m s (EQuota it) Hm Logic.I I) as H. fold s' c in H.
-  unfold recovery_ok in H. destruct (observe_rem_eq st _ _ _ I') as [Er Ep]. rewrite Ep in H.
-  assert (G' : global_strategy (sstr s) = true) by (destruct (sstr s); auto).
-  rewrite G' in H.
-  assert (S' : strategy_eqb (istr it) SCount = false).
-  { destruct (strategy_eqb (istr it) SCount) eqn:X; [|reflexivity]. apply strategy_eqb_eq in X. contradiction. }
-  rewrite S', Gr in H. simpl in H. apply andb_true_iff in H. destruct H as [H1 H2].
-  unfold inner_is, rlim_is, rem_of in *. rewrite Er in *. unfold observe_rem in *.
-  destruct (rem s') as [w'|] eqn:Rm'; [|discriminate].
-  destruct (rin w') as [i'|] eqn:Ri'; [|discriminate]. simpl in *.
-  apply lim_eqb_eq in H2.
-  assert (Ss : sstr s' = sstr s).
-  { subst s'. rewrite sstr_step. destruct I as (I1 & _). rewrite I1. reflexivity. }
-  assert (Hr : hready s' = hready s).
-  { subst s'. unfold step. destruct I as (I1 & _). rewrite I1, G. unfold apply_sync. destruct (rw_sync _ _ _ _ _); reflexivity. }
-  destruct (observe_selected st _ m s' w' i' I' M Cs ltac:(congruence) ltac:(congruence) Rm' Ri') as [A B].
-  split; [assumption|]. split; [congruence|]. unfold remote_lim. rewrite Rm', Ri'. congruence.
-Qed.
-
-(* an accepted global-count reply that is not stale ends the unavailable state; the granted limit,
-   raised to the burst reserve and bounded by the granted maximum, is the size (token bucket: the
-   configured global rate is restored) and it is what a request meets when the server is ready *)
-Lemma recovery_count st str0 ops limit rt w i it : valid_cfg (cfg st) -> Forall (ev_ok (ck (cfg st))) ops ->
-  let s := run true true st (init (cfg st) str0) ops in
-  rem s = Some w -> rin w = Some i -> iw i <> WEmpty -> rcfg w = Some it ->
-  (0 <? rt) && (rt <=? ilast i) = false ->
-  let s' := step true true st s (ECount (ROk true limit) rt) in
-  exists i', rem s' = Some {| rin := Some i'; rcfg := Some it |} /\ iun i' = false /\
-             match idet it with
-             | DMI m => il i' = LMI (zmin (zmax limit (reserve_of true m)) m)
-             | DTB q b => il i' = LTB q b
-             | DNone => False
-             end /\
-             (md st = MRemote -> cs st = CSOk -> hready s = true -> enable_global (sstr s) = true ->
-              o_sel (observe true st s') = SelRemote /\ o_lim (observe true st s') = Some (il i')).
-Proof.
-  intros V Ev s Rm Ri W Rc F s'. destruct (reach_inv st str0 ops V Ev) as (m & Hm & I). fold s in I.
-  pose proof (step_inv st _ m s (ECount (ROk true limit) rt) Hm Logic.I I) as I'. fold s' in I'.
-  pose proof I as (I1 & Vs & _ & _ & I3). rewrite Rm in I3. unfold wrap_ok in I3. rewrite Ri in I3.
-  destruct I3 as (it' & Rc' & Hit & Hi). rewrite Rc in Rc'. inversion Rc'; subst it'; clear Rc'.
-  assert (Sel : forall i', s' = set_rem s (Some {| rin := Some i'; rcfg := rcfg w |}) ->
-                md st = MRemote -> cs st = CSOk -> hready s = true -> enable_global (sstr s) = true ->
-                o_sel (observe true st s') = SelRemote /\ o_lim (observe true st s') = Some (il i')).
-  { intros i' E M Cs R G.
-    apply (observe_selected st _ _ s' {| rin := Some i'; rcfg := rcfg w |} i' I' M Cs); try rewrite E; simpl; auto. }
-  pose proof Hi as Hi0. unfold inner_ok in Hi0.
-  destruct (iw i) eqn:Wi; [congruence| |].
-  - destruct Hi0 as (_ & _ & mm & n & D & _).
-    destruct (set_limit_mi_accept (scfg s) m i it mm limit rt Vs Hit Hi Wi F D) as (i' & E & _ & U' & _ & L').
-    pose proof (count_state st s w i i' _ rt I1 Rm Ri E) as St. fold s' in St.
-    exists i'. split; [rewrite St; simpl; rewrite Rc; reflexivity|]. split; [assumption|].
-    split; [rewrite D; assumption|]. apply Sel; assumption.
-  - destruct Hi0 as (_ & _ & _ & q & b & q' & b' & D & _).
-    destruct (set_limit_tb_accept (scfg s) m i it q b limit rt Vs Hit Hi Wi D) as (i' & E & _ & U' & L').
-    pose proof (count_state st s w i i' _ rt I1 Rm Ri E) as St. fold s' in St.
-    exists i'. split; [rewrite St; simpl; rewrite Rc; reflexivity|]. split; [assumption|].
-    split; [rewrite D; assumption|]. apply Sel; assumption.
-Qed.
-
-(* a schema update takes effect at once: right after it, the limiter a request meets and the remote
-   limiter are within the NEW limits — no window until the next answer of the limiter server *)
-Lemma schema_update_bounds st str0 ops a b g h : valid_cfg (cfg st) -> Forall (ev_ok (ck (cfg st))) ops ->
-  let c' := {| ck := ck (cfg st); l1 := a; l2 := b; g1 := g; g2 := h |} in
-  valid_cfg c' ->
-  let s' := run true true st (init (cfg st) str0) (ops ++ [ESchema a b g h]) in
-  scfg s' = c' /\
-  (exists l, o_lim (observe true st s') = Some l /\ lim_bounded c' l = true) /\
-  (forall l, remote_lim s' = Some l -> lim_bounded c' l = true).
-Proof.
-  intros V Ev c' V' s'.
-  assert (Ev' : Forall (ev_ok (ck (cfg st))) (ops ++ [ESchema a b g h])).
-  { apply Forall_app_ok; [assumption|]. constructor; [exact V'|constructor]. }
-  destruct (reach_inv st str0 _ V Ev') as (m & _ & I). fold s' in I.
-  assert (C : scfg s' = c').
-  { subst s'. unfold run. rewrite fold_left_app. fold (run true true st (init (cfg st) str0) ops). simpl.
-    destruct (reach_inv st str0 ops V Ev) as (m0 & _ & (I1 & _ & K & _)).
-    rewrite (scfg_step _ _ _ I1). simpl. rewrite K. reflexivity. }
-  split; [exact C|]. rewrite <- C. split.
-  - destruct (enforced_bounded st _ m s' I) as (l & L & B & _). exists l. auto.
-  - intros l R. eapply remote_bounded; eauto.
-Qed.
+Lemma rem_present maxrt s w : Inv maxrt s -> rem s = Some w -> present s = true.
+Proof. intros (_ & _ & Ip & _) R. destruct (present s); [reflexivity|]. rewrite (Ip eq_refl) in R. discriminate. Qed.
